@@ -31,6 +31,7 @@ def prepare(release=False):
     facts = p.facts
     gen_harness.gen_spirv(facts["spirv"])
     gen_harness.gen_reflect(facts["reflect"])
+    gen_harness.gen_decode(facts["operand"])
     p.exe, err = core.build_harness(release=False)
     if p.exe is None:
         p.broken.append({"lemma": "harness build (T-dump call stubs generated from T-src)", "error": err[-3000:]})
